@@ -12,7 +12,7 @@ for l in open(spec):
     elif l.startswith('thm '): _, t, lem = l.split(); items.append((t, lem, []))
     elif l.startswith('#'):
         (items[-1][2] if items else header).append(l[1:].strip())
-pre = ''.join('From Pnc Require Import %s.\n' % m for m in imports) + 'Set Printing Width 100.\n'
+pre = 'From Coq Require Import ZArith List.\n' + ''.join('From Pnc Require Import %s.\n' % m for m in imports) + 'Set Printing Width 100.\nSet Printing Depth 100000.\n'
 out = ['(* Properties_%s.v — statements only: each property theorem is stated in full and closed by' % pid,
        '   `exact <lemma>`; the lemmas live in the Proofs_*.v files.  Assembled by tools/mkprops.py. *)']
 out += ['(* %s *)' % h for h in header]
